@@ -115,6 +115,22 @@ def step (st : State) (w : List String) : State × String :=
         ({ st with ps := ps }, s!"lp={ps.lastPersisted} {fileStr ps.main}")
       | none => (st, "bad-op")
     | _, _ => (st, "bad-op")
+  | ["bl", "persistrace", _order, a, b] =>
+    -- two Set-mutations, then both persists; whatever the order, the newest version wins
+    match hexStr a, hexStr b with
+    | some ka, some kb =>
+      let v0 := st.ps.version
+      let ps := Blocklist.step (Blocklist.step st.ps (.mutate (.set ka))) (.mutate (.set kb))
+      let persistVer (ps : PState) (v : Nat) : PState :=
+        if v > v0 then
+          match ps.pending.findIdx? (fun s => s.version == v) with
+          | some i => run ps (persistSteps ps i 0)
+          | none => ps
+        else ps
+      let ps := persistVer ps ps.version
+      let ps := persistVer ps (ps.version - 1)
+      ({ st with ps := ps }, s!"lp={ps.lastPersisted} {fileStr ps.main}")
+    | _, _ => (st, "bad-op")
   | ["bl", "serve", name, qt] =>
     match hexStr name, qt.toNat? with
     | some q, some t => (st, serveStr (serveDNS st.cfg st.ps.mem q t))
